@@ -155,11 +155,13 @@ def build_job(job, work, verbose=False):
                          or job.get("apply_loop_contracts"))
     contract_mode = bool(job["enforce"] or job["enforce_rec"] or job["replace"] or job.get("loop_contracts")
                          or job.get("apply_loop_contracts"))
-    if job.get("restrict_fp"):
+    if job.get("restrict_fp") or job.get("restrict_fp_by_name"):
         b = os.path.join(work, "a2.gb")
         c = ["goto-instrument"]
-        for r in job["restrict_fp"]:
+        for r in job.get("restrict_fp", []):
             c += ["--restrict-function-pointer", r]
+        for r in job.get("restrict_fp_by_name", []):      # robust against added/removed call sites: keyed by the pointer's name
+            c += ["--restrict-function-pointer-by-name", r]
         c += [cur, b]
         cmds.append(c)
         rc, so, se, dt = sh(c, 120, cwd=work)
@@ -283,6 +285,8 @@ def run_job(job, tier, verbose=False, keep=None):
             if r.get("description") == "undefined function should be unreachable" and r.get("status") == "FAILURE":
                 raise MachineryError("function %s is reached but has neither body nor contract (add an env stub or a contract)"
                                      % r.get("property", "?").split(".")[0])
+            if "dereferenced function pointer must be" in r.get("description", "") and r.get("status") == "FAILURE":
+                raise MachineryError("function pointer restriction of the job no longer matches the code (call sites were added or removed): %s" % r.get("property"))
             if r.get("description", "").startswith("MACHINERY:") and r.get("status") == "FAILURE":
                 raise MachineryError(r["description"])
             if "unwinding assertion" in r.get("description", "") and r.get("status") == "FAILURE":
